@@ -7,6 +7,7 @@ import (
 	"net"
 	"reflect"
 	"sort"
+	"strconv"
 	"strings"
 	"unsafe"
 
@@ -476,6 +477,8 @@ func run(r *Rng, tier string, n int) {
 	}
 	checkSignVerify(r)
 	readonlyNonCanonical(r)
+	readonlyFailing(r, pool, types)
+	observedDuringSignVerify()
 	unpackAliasingSweep(r)
 	Stat(st)
 }
@@ -583,6 +586,7 @@ func (d *c16Spy) Unpack(buf []byte) (int, error) {
 }
 func (d *c16Spy) Copy(dst dns.PrivateRdata) error {
 	dst.(*c16Spy).B = append([]byte(nil), d.B...)
+	dst.(*c16Spy).look = d.look // a private copy made INSIDE an operation calls back as well
 	return nil
 }
 func (d *c16Spy) Len() int {
@@ -958,6 +962,451 @@ func unpackAliasingSweep(r *Rng) {
 			w = append(w, 1, 's', 0, 0, 64, 0, 1, 0, 0, 0, 0, byte(len(rd)>>8), byte(len(rd)))
 			w = append(w, rd...)
 			check(w, "SVCB key "+Itoa(key)+" length "+Itoa(l))
+		}
+	}
+}
+
+// fingerprint: an independent deep rendering of a value and everything it points to (reflection only: no
+// method of the library is called, so it can be taken from INSIDE an operation). Left out, by the property
+// text: RR_Header.Rdlength and the extended-RCODE octet of an OPT header's TTL (documented bookkeeping);
+// func values (the generator of a private-use record) have no content.
+func fingerprint(vs ...any) string {
+	var sb strings.Builder
+	for _, x := range vs {
+		fpWalk(reflect.ValueOf(x), &sb)
+		sb.WriteByte('\n')
+	}
+	return sb.String()
+}
+
+var hdrType = reflect.TypeOf(dns.RR_Header{})
+
+func fpWalk(v reflect.Value, sb *strings.Builder) {
+	switch v.Kind() {
+	case reflect.Invalid:
+		sb.WriteString("<invalid>")
+	case reflect.Ptr:
+		if v.IsNil() {
+			sb.WriteString("nil")
+			return
+		}
+		sb.WriteByte('&')
+		fpWalk(v.Elem(), sb)
+	case reflect.Interface:
+		if v.IsNil() {
+			sb.WriteString("nil")
+			return
+		}
+		sb.WriteString(v.Elem().Type().String())
+		fpWalk(v.Elem(), sb)
+	case reflect.Struct:
+		sb.WriteByte('{')
+		for i := 0; i < v.NumField(); i++ {
+			name := v.Type().Field(i).Name
+			if v.Type() == hdrType && name == "Rdlength" {
+				continue
+			}
+			sb.WriteString(name)
+			sb.WriteByte(':')
+			if v.Type() == hdrType && name == "Ttl" && v.FieldByName("Rrtype").Uint() == uint64(dns.TypeOPT) {
+				sb.WriteString(strconv.FormatUint(v.Field(i).Uint()&0x00FFFFFF, 10))
+			} else {
+				fpWalk(v.Field(i), sb)
+			}
+			sb.WriteByte(' ')
+		}
+		sb.WriteByte('}')
+	case reflect.Slice:
+		if v.IsNil() {
+			sb.WriteString("nil[]")
+			return
+		}
+		fallthrough
+	case reflect.Array:
+		sb.WriteByte('[')
+		for i := 0; i < v.Len(); i++ {
+			fpWalk(v.Index(i), sb)
+			sb.WriteByte(',')
+		}
+		sb.WriteByte(']')
+	case reflect.String:
+		sb.WriteString(strconv.Quote(v.String()))
+	case reflect.Bool:
+		sb.WriteString(strconv.FormatBool(v.Bool()))
+	case reflect.Int, reflect.Int8, reflect.Int16, reflect.Int32, reflect.Int64:
+		sb.WriteString(strconv.FormatInt(v.Int(), 10))
+	case reflect.Uint, reflect.Uint8, reflect.Uint16, reflect.Uint32, reflect.Uint64, reflect.Uintptr:
+		sb.WriteString(strconv.FormatUint(v.Uint(), 10))
+	case reflect.Func:
+		sb.WriteString("func")
+	default:
+		sb.WriteString("?" + v.Kind().String())
+	}
+}
+
+// breakRR makes rr impossible to pack in one way chosen by k among the ways its fields offer (an address
+// of 5 octets, a character-string above 255 octets, odd / non-hex digits, bad base64 / base32, a label above
+// 63 octets or a name above 255 octets in the RDATA), or - for every type - through its owner name. The
+// result is used only when PackRR really refuses it.
+func breakRR(rr dns.RR, k int) (how string) {
+	longLabel := strings.Repeat("L", 64) + ".Example.ORG."
+	longName := strings.Repeat(strings.Repeat("n", 60)+".", 5) + "Example.ORG."
+	v := Flatten(reflect.ValueOf(rr).Elem())
+	t := v.Type()
+	type way struct {
+		how string
+		f   func()
+	}
+	var ways []way
+	for i := 0; i < t.NumField(); i++ {
+		f, name, tag := v.Field(i), t.Field(i).Name, t.Field(i).Tag.Get("dns")
+		if name == "Hdr" || !f.CanSet() {
+			continue
+		}
+		add := func(how string, g func()) { ways = append(ways, way{name + ": " + how, g}) }
+		switch {
+		case f.Kind() == reflect.Slice && f.Type().Elem().Kind() == reflect.Uint8 && (tag == "a" || tag == "aaaa"):
+			add("address of 5 octets", func() { f.SetBytes([]byte{1, 2, 3, 4, 5}) })
+		case f.Kind() == reflect.Slice && f.Type().Elem().Kind() == reflect.String && strings.Contains(tag, "domain-name"):
+			add("over-long label in a name list", func() { f.Set(reflect.Append(f, reflect.ValueOf(longLabel))) })
+		case f.Kind() == reflect.Slice && f.Type().Elem().Kind() == reflect.String:
+			add("character-string of 300 octets", func() { f.Set(reflect.Append(f, reflect.ValueOf(strings.Repeat("t", 300)))) })
+		case f.Kind() != reflect.String:
+		case strings.Contains(tag, "hex"):
+			add("odd number of hex digits", func() { f.SetString(f.String() + "a") })
+			add("non-hex digits", func() { f.SetString(f.String() + "zz") })
+		case strings.Contains(tag, "base64"):
+			add("bad base64", func() { f.SetString("!!!!") })
+		case strings.Contains(tag, "base32"):
+			add("bad base32", func() { f.SetString("!!!!!!!!") })
+		case strings.Contains(tag, "domain-name"):
+			add("label above 63 octets", func() { f.SetString(longLabel) })
+			add("name above 255 octets", func() { f.SetString(longName) })
+		default:
+			add("character-string of 300 octets", func() { f.SetString(strings.Repeat("s", 300)) })
+		}
+	}
+	if k < len(ways) {
+		ways[k].f()
+		return ways[k].how
+	}
+	switch k - len(ways) {
+	case 0:
+		rr.Header().Name = strings.Repeat("O", 64) + "." + rr.Header().Name
+		return "owner: label above 63 octets"
+	case 1:
+		rr.Header().Name = strings.Repeat(strings.Repeat("o", 60)+".", 5) + rr.Header().Name
+		return "owner: name above 255 octets"
+	}
+	return ""
+}
+
+func packFails(rr dns.RR) bool {
+	c := deepClone(reflect.ValueOf(rr)).Interface().(dns.RR)
+	return Protect(func() string {
+		if _, err := dns.PackRR(c, make([]byte, 8192), 0, nil, false); err != nil {
+			return "err"
+		}
+		return "ok"
+	}) == "err"
+}
+
+// readonlyFailing: the read-only operations leave their arguments as they were ALSO when they fail, or fail
+// part-way: a record that cannot be packed, on its own, inside a message (any section, any position) and
+// inside an RRset that is signed / verified (first, middle, last), with headers that are not in canonical
+// form (TTL other than the original TTL, upper case in the owner, an owner expanded from a wildcard), for
+// every registered type and every way of breaking it that its fields offer.
+func readonlyFailing(r *Rng, pool *NamePool, types []uint16) {
+	_, priv, _ := ed25519.GenerateKey(nil)
+	key := &dns.DNSKEY{Hdr: dns.RR_Header{Name: "example.org.", Rrtype: dns.TypeDNSKEY, Class: 1, Ttl: 3600}, Flags: 257, Protocol: 3, Algorithm: dns.ED25519}
+	key.PublicKey = toB64(priv.Public().(ed25519.PublicKey))
+	reported := map[string]bool{}
+	viol := func(key, what string, in map[string]string) {
+		if !reported[key] {
+			reported[key] = true
+			Viol(key, what, in)
+		}
+	}
+	gen := func(t uint16, owner string, ttl uint32) dns.RR {
+		rr, _ := GenRR(r, pool, t, false)
+		h := rr.Header()
+		h.Name, h.Class, h.Ttl = owner, dns.ClassINET, ttl
+		return rr
+	}
+	// (owner as held by the caller, Labels of the signature, TTLs of the records, original TTL)
+	forms := []struct {
+		owner   string
+		labels  uint8
+		ttl     [3]uint32
+		origTtl uint32
+	}{
+		{"Www.Example.ORG.", 3, [3]uint32{300, 300, 300}, 3600},       // upper case, a cached (decremented) TTL
+		{"host.a.example.org.", 2, [3]uint32{3600, 3600, 3600}, 3600}, // expanded from *.example.org.
+		{"Host.A.Example.org.", 2, [3]uint32{120, 60, 30}, 86400},
+		{"*.Example.org.", 2, [3]uint32{300, 200, 100}, 300},
+		{"www.example.org.", 3, [3]uint32{300, 300, 300}, 300}, // canonical already
+	}
+	for _, t := range types {
+		if t == dns.TypeOPT {
+			continue // not part of any RRset; as a message member it is covered below through GenMsg-like messages
+		}
+		tname := dns.TypeToString[t]
+		for k := 0; ; k++ {
+			probe := gen(t, "www.example.org.", 300)
+			how := breakRR(probe, k)
+			if how == "" {
+				break
+			}
+			if !packFails(probe) {
+				continue
+			}
+			st["failing_ways"]++
+			form := forms[(k+int(t))%len(forms)]
+			mkBad := func(i int) dns.RR {
+				for tries := 0; tries < 8; tries++ {
+					rr := gen(t, form.owner, form.ttl[i%3])
+					breakRR(rr, k)
+					rr.Header().Class, rr.Header().Ttl = dns.ClassINET, form.ttl[i%3]
+					if packFails(rr) {
+						return rr
+					}
+				}
+				return nil
+			}
+			// 1. the record on its own
+			if bad := mkBad(0); bad != nil {
+				twin := deepClone(reflect.ValueOf(bad)).Interface().(dns.RR)
+				good := gen(t, form.owner, 300)
+				for _, op := range []struct {
+					name string
+					f    func()
+				}{
+					{"Len", func() { _ = dns.Len(bad) }},
+					{"String", func() { _ = bad.String() }},
+					{"PackRR", func() { _, _ = dns.PackRR(bad, make([]byte, 8192), 0, nil, false) }},
+					{"PackRR-compress", func() { _, _ = dns.PackRR(bad, make([]byte, 8192), 0, map[string]int{}, true) }},
+					{"PackRR-short-buffer", func() { _, _ = dns.PackRR(bad, make([]byte, 14), 0, nil, false) }},
+					{"Copy", func() { _ = dns.Copy(bad) }},
+					{"IsDuplicate", func() {
+						dns.IsDuplicate(bad, twin)
+						dns.IsDuplicate(twin, bad)
+						dns.IsDuplicate(bad, good)
+						dns.IsDuplicate(good, bad)
+					}},
+				} {
+					before := fingerprint(bad, twin, good)
+					if Protect(func() string { op.f(); return "ok" }) == "panic" {
+						continue
+					}
+					st["failing_record_ops_checked"]++
+					if after := fingerprint(bad, twin, good); after != before {
+						viol("C16/readonly-mutates/failing/"+op.name, op.name+" changed a record it cannot pack ("+tname+", "+how+")", map[string]string{"before": before, "after": after})
+					}
+				}
+			}
+			// 2. inside a message: every section, first / middle / last
+			for _, place := range []string{"an0", "an1", "an2", "ns0", "ns1", "ex0", "ex1"} {
+				bad := mkBad(1)
+				if bad == nil {
+					break
+				}
+				if k > 1 && place != "an1" && place != "ex1" && r.Intn(3) != 0 {
+					continue
+				}
+				m := new(dns.Msg)
+				m.SetQuestion("Www.Example.ORG.", t)
+				m.Response, m.Compress = true, r.Bool()
+				m.Answer = []dns.RR{gen(t, form.owner, 30), gen(t, form.owner, 20), gen(t, form.owner, 10)}
+				m.Ns = []dns.RR{gen(dns.TypeNS, "Example.ORG.", 60), gen(dns.TypeNS, "Example.ORG.", 60)}
+				m.Extra = []dns.RR{gen(dns.TypeA, "NS1.Example.ORG.", 60), gen(dns.TypeAAAA, "NS1.Example.ORG.", 60)}
+				if r.Bool() {
+					m.Extra = append(m.Extra, &dns.OPT{Hdr: dns.RR_Header{Name: ".", Rrtype: dns.TypeOPT, Class: 1232}})
+					m.Rcode = dns.RcodeBadVers
+				}
+				sec := map[byte]*[]dns.RR{'a': &m.Answer, 'n': &m.Ns, 'e': &m.Extra}[place[0]]
+				(*sec)[int(place[2]-'0')] = bad
+				for _, op := range []struct {
+					name string
+					f    func()
+				}{
+					{"Len", func() { _ = m.Len() }},
+					{"Pack", func() { _, _ = m.Pack() }},
+					{"PackBuffer", func() { _, _ = m.PackBuffer(make([]byte, 70000)) }},
+					{"PackBuffer-short", func() { _, _ = m.PackBuffer(make([]byte, 40)) }},
+					{"String", func() { _ = m.String() }},
+					{"Copy", func() { _ = m.Copy() }},
+					{"IsEdns0", func() { _ = m.IsEdns0() }},
+					{"IsDuplicate", func() {
+						all := append(append(append([]dns.RR{}, m.Answer...), m.Ns...), m.Extra...)
+						for i := range all {
+							dns.IsDuplicate(all[i], bad)
+							dns.IsDuplicate(bad, all[i])
+						}
+					}},
+				} {
+					before := fingerprint(m)
+					if Protect(func() string { op.f(); return "ok" }) == "panic" {
+						continue
+					}
+					st["failing_message_ops_checked"]++
+					if after := fingerprint(m); after != before {
+						viol("C16/readonly-mutates/failing-message/"+op.name, op.name+" changed a message holding a record it cannot pack ("+tname+" at "+place+", "+how+")", map[string]string{"before": before, "after": after})
+					}
+				}
+			}
+			// 3. inside an RRset that is signed / verified: the failing record first, in the middle, last, alone
+			for _, shape := range []string{"bgg", "gbg", "ggb", "b", "gb", "bb"} {
+				if k > 1 && shape != "gbg" && r.Intn(3) != 0 {
+					continue
+				}
+				var rrset []dns.RR
+				for i, c := range shape {
+					if c == 'b' {
+						bad := mkBad(i)
+						if bad == nil {
+							break
+						}
+						rrset = append(rrset, bad)
+					} else {
+						rrset = append(rrset, gen(t, form.owner, form.ttl[i%3]))
+					}
+				}
+				if len(rrset) != len(shape) {
+					continue
+				}
+				owner := rrset[0].Header().Name // (the owner itself may be what is broken)
+				for _, rr := range rrset {
+					rr.Header().Name = owner
+				}
+				in := map[string]string{"type": tname, "how": how, "shape": shape, "owner": owner}
+				// Sign, with the original TTL preset (a signer that publishes with a lower TTL) and not
+				for _, preset := range []uint32{form.origTtl, 0} {
+					sig := &dns.RRSIG{KeyTag: key.KeyTag(), SignerName: "Example.ORG.", Algorithm: dns.ED25519, Inception: 1700000000, Expiration: 1800000000, OrigTtl: preset}
+					before := fingerprint(rrset, key)
+					var err error
+					if Protect(func() string { err = sig.Sign(priv, rrset); return "ok" }) == "panic" {
+						continue
+					}
+					if err == nil {
+						st["failing_sign_succeeded"]++ // (the signer may not look at what is broken)
+					} else {
+						st["failing_sign_checked"]++
+					}
+					if after := fingerprint(rrset, key); after != before {
+						in["before"], in["after"] = before, after
+						viol("C16/readonly-mutates/failing/Sign", "RRSIG.Sign, failing on a record it cannot pack, changed the RRset or the key", in)
+					}
+				}
+				// Verify: a signature record as received (its RDATA need not be a valid signature: the call fails before)
+				sig := &dns.RRSIG{Hdr: dns.RR_Header{Name: owner, Rrtype: dns.TypeRRSIG, Class: dns.ClassINET, Ttl: form.ttl[0]}, TypeCovered: t, Algorithm: dns.ED25519,
+					Labels: form.labels, OrigTtl: form.origTtl, Inception: 1700000000, Expiration: 1800000000, KeyTag: key.KeyTag(), SignerName: "Example.ORG.", Signature: toB64(make([]byte, 64))}
+				if strings.HasPrefix(how, "owner") {
+					sig.Labels = uint8(dns.CountLabel(owner)) - 1
+				}
+				before := fingerprint(rrset, key, sig)
+				var err error
+				if Protect(func() string { err = sig.Verify(key, rrset); return "ok" }) == "panic" {
+					continue
+				}
+				if err == dns.ErrRRset || err == dns.ErrKey {
+					st["failing_verify_rejected_early"]++
+				} else {
+					st["failing_verify_checked"]++
+				}
+				if after := fingerprint(rrset, key, sig); after != before {
+					in["before"], in["after"] = before, after
+					viol("C16/readonly-mutates/failing/Verify", "RRSIG.Verify, failing on a record it cannot pack, changed the RRset, the key or the signature record", in)
+				}
+			}
+		}
+	}
+}
+
+// observedDuringSignVerify: what the caller's RRset, key and signature record look like WHILE Sign / Verify
+// run - the view of any concurrent reader of a shared (cached) RRset - taken deterministically: the records
+// are of a private-use type whose RDATA is called back from inside the operation (Len / Pack of the record
+// itself or of the private copy the operation made) and fingerprints the caller's values. Putting a field
+// back afterwards does not help a reader that looks in between.
+func observedDuringSignVerify() {
+	const code = 65318
+	dns.PrivateHandle("VSPYSIG", code, func() dns.PrivateRdata { return new(c16Spy) })
+	defer dns.PrivateHandleRemove(code)
+	_, priv, _ := ed25519.GenerateKey(nil)
+	key := &dns.DNSKEY{Hdr: dns.RR_Header{Name: "example.org.", Rrtype: dns.TypeDNSKEY, Class: 1, Ttl: 3600}, Flags: 257, Protocol: 3, Algorithm: dns.ED25519}
+	key.PublicKey = toB64(priv.Public().(ed25519.PublicKey))
+	for _, c := range []struct {
+		owner, verifyOwner string
+		ttl                uint32
+		origTtl            uint32
+	}{
+		{"Www.Example.ORG.", "WWW.example.org.", 300, 3600},
+		{"*.Example.org.", "Host.A.example.org.", 3600, 3600},
+		{"www.example.org.", "www.example.org.", 60, 0},
+		{"www.example.org.", "www.example.org.", 300, 300},
+	} {
+		for _, nrec := range []int{1, 3} {
+			var rrset []dns.RR
+			var spies []*c16Spy
+			for i := 0; i < nrec; i++ {
+				rr := dns.TypeToRR[code]().(*dns.PrivateRR)
+				rr.Hdr = dns.RR_Header{Name: c.owner, Rrtype: code, Class: 1, Ttl: c.ttl}
+				rr.Data.(*c16Spy).B = []byte{byte(3 - i), 2, 3}
+				rrset = append(rrset, rr)
+				spies = append(spies, rr.Data.(*c16Spy))
+			}
+			sig := &dns.RRSIG{KeyTag: key.KeyTag(), SignerName: "Example.ORG.", Algorithm: dns.ED25519, Inception: 1700000000, Expiration: 1800000000, OrigTtl: c.origTtl}
+			var want, seen string
+			looks := 0
+			look := func() {
+				looks++
+				if got := fingerprint(rrset, key); got != want && seen == "" {
+					seen = got
+				}
+			}
+			arm := func(f func()) {
+				for _, s := range spies {
+					s.look = f
+				}
+			}
+			want = fingerprint(rrset, key)
+			arm(look)
+			var err error
+			Protect(func() string { err = sig.Sign(priv, rrset); return "ok" })
+			arm(nil)
+			st["observed_during_sign_callbacks"] += looks
+			if seen != "" {
+				Viol("C16/readonly-mutates/during/Sign", "RRSIG.Sign changes its RRset while it runs (seen from a callback inside it), even if it restores it afterwards", map[string]string{"before": want, "during": seen})
+			} else if after := fingerprint(rrset, key); after != want {
+				Viol("C16/readonly-mutates/Sign", "RRSIG.Sign changed the RRset or key (private-use type)", map[string]string{"before": want, "after": after})
+			}
+			if err != nil {
+				continue
+			}
+			for _, rr := range rrset {
+				rr.Header().Name = c.verifyOwner
+				rr.Header().Ttl = c.ttl / 2 // as served from a cache
+			}
+			sig.Hdr.Name = c.verifyOwner
+			sigWant := fingerprint(sig)
+			want, seen, looks = fingerprint(rrset, key), "", 0
+			sigSeen := ""
+			arm(func() {
+				look()
+				if got := fingerprint(sig); got != sigWant && sigSeen == "" {
+					sigSeen = got
+				}
+			})
+			Protect(func() string { err = sig.Verify(key, rrset); return "ok" })
+			arm(nil)
+			st["observed_during_verify_callbacks"] += looks
+			if err != nil {
+				st["observed_during_verify_failed"]++
+			}
+			if seen != "" || sigSeen != "" {
+				Viol("C16/readonly-mutates/during/Verify", "RRSIG.Verify changes its RRset or the signature record while it runs (seen from a callback inside it), even if it restores it afterwards", map[string]string{"before": want + sigWant, "during": seen + sigSeen})
+			} else if after := fingerprint(rrset, key) + fingerprint(sig); after != want+sigWant {
+				Viol("C16/readonly-mutates/Verify", "RRSIG.Verify changed the RRset, key or signature record (private-use type)", map[string]string{"before": want + sigWant, "after": after})
+			}
 		}
 	}
 }
